@@ -376,7 +376,7 @@ def own_hygiene(ck):
                 depth += 1
             if re.match(r"\s*End\b", line):
                 depth = max(0, depth - 1)
-            if re.match(r"\s*(Variable|Variables|Hypothesis|Hypotheses|Context)\b", line) and depth == 0:
+            if re.match(r"\s*(Variable|Variables|Hypothesis|Hypotheses)\s|\s*Context\s*[`{(]", line) and depth == 0:
                 bad.append("%s:%d: %s outside a Section" % (rel, n, line.strip()))
     ck.obligations.append("hygiene (files of C12): no Admitted/admit/Axiom/Parameter/Conjecture, no disabled checks, Variables only in Sections")
     if bad:
